@@ -140,6 +140,7 @@ struct UnitCfg {
     attrs: String,
     loops: HashMap<usize, String>,
     closures: HashMap<usize, Value>,
+    closures_by_text: Vec<(String, Value)>,
     hints: Vec<Value>,
     body_open: String, // text inserted right after the body's opening brace
     rename: Option<String>,
@@ -192,7 +193,10 @@ fn unit_from(v: &Value) -> UnitCfg {
     }
     if let Some(m) = v.get("closures").and_then(|x| x.as_object()) {
         for (k, t) in m {
-            u.closures.insert(k.parse().unwrap(), t.clone());
+            match k.parse::<usize>() {
+                Ok(n) => { u.closures.insert(n, t.clone()); }
+                Err(_) => u.closures_by_text.push((k.split_whitespace().collect::<Vec<_>>().join(" "), t.clone())),
+            }
         }
     }
     if let Some(a) = v.get("hints").and_then(|x| x.as_array()) {
@@ -252,6 +256,7 @@ struct BodyV<'a, 'b> {
     outer_name: String,
     used_loops: HashSet<usize>,
     used_closures: HashSet<usize>,
+    used_text_closures: HashSet<String>,
 }
 
 fn path_key2(p: &Path) -> (Option<String>, String) {
@@ -419,6 +424,10 @@ impl<'a, 'b> BodyV<'a, 'b> {
             self.fc.errors.push(format!("format!({:?}) has a placeholder shape R4 does not cover", s));
             return;
         }
+        // the first piece starts the builder (so that no `empty + x` term arises)
+        if let Some(first) = pieces.first_mut() {
+            *first = first.replacen(".lit(", ".lit0(", 1).replacen(".arg(", ".arg0(", 1);
+        }
         let txt = format!("crate::shims::fmt::Fmt::new(){}.done()", pieces.concat());
         self.fc.edit(whole.0, whole.1, txt, "R4.visible");
     }
@@ -426,9 +435,22 @@ impl<'a, 'b> BodyV<'a, 'b> {
     fn weave_closure(&mut self, c: &ExprClosure) {
         self.closure_no += 1;
         let n = self.closure_no;
-        let spec = self.unit.as_ref().and_then(|u| u.closures.get(&n)).cloned();
-        if let Some(spec) = spec {
+        let mut spec = self.unit.as_ref().and_then(|u| u.closures.get(&n)).cloned();
+        if spec.is_some() {
             self.used_closures.insert(n);
+        } else if let Some(u) = self.unit.as_ref() {
+            // text-anchored: the closure's source text (whitespace-normalised) starts with the key
+            let r = range_of(c);
+            let txt = self.fc.text(r).split_whitespace().collect::<Vec<_>>().join(" ");
+            for (k, v) in &u.closures_by_text {
+                if txt.starts_with(k.as_str()) && !self.used_text_closures.contains(k) {
+                    spec = Some(v.clone());
+                    self.used_text_closures.insert(k.clone());
+                    break;
+                }
+            }
+        }
+        if let Some(spec) = spec {
             // replace `|params|` (+ optional `-> T`) by the overlay's signature text
             let (a, _) = br(c.or1_token.span());
             let mut end = br(c.or2_token.span()).1;
@@ -1083,6 +1105,7 @@ fn process_fn(
         outer_name: outer_name.to_string(),
         used_loops: HashSet::new(),
         used_closures: HashSet::new(),
+                        used_text_closures: HashSet::new(),
     };
     for inp in sig.inputs.iter() {
         match inp {
@@ -1159,6 +1182,12 @@ fn process_fn(
     for k in uc {
         if !u.drop_body {
             bv.fc.errors.push(format!("unit {}: contract names closure #{k} but the function has no such closure (anchor lost)", u.id));
+        }
+    }
+    let ut: Vec<String> = u.closures_by_text.iter().map(|(k, _)| k.clone()).filter(|k| !bv.used_text_closures.contains(k)).collect();
+    for k in ut {
+        if !u.drop_body {
+            bv.fc.errors.push(format!("unit {}: contract names a closure starting with `{k}` but the function has none (anchor lost)", u.id));
         }
     }
     for h in &u.hints {
@@ -1382,6 +1411,7 @@ fn main() {
                         outer_name: name.clone(),
                         used_loops: HashSet::new(),
                         used_closures: HashSet::new(),
+                        used_text_closures: HashSet::new(),
                     };
                     match item {
                         Item::Struct(s) => make_pub(bv.fc, &s.vis, br(s.struct_token.span()).0),
@@ -1545,6 +1575,7 @@ fn main() {
                             outer_name: key.clone(),
                             used_loops: HashSet::new(),
                             used_closures: HashSet::new(),
+                        used_text_closures: HashSet::new(),
                         };
                         bv.visit_type(&im.self_ty);
                         if !inherent {
